@@ -1,12 +1,12 @@
-(* C02 model: agents/nodes/parameters.py:get_parameters and the overload / setter / deleter
-   bookkeeping of agents/visitor.py:handle_function.  Executable definitions only. *)
+(* C02 model: agents/nodes/parameters.py:get_parameters over the constants regenerated from the source
+   (Gen/C02_tables.v: kind per source list, variadic default texts, block order), and CPython's reading of the same
+   ast.arguments.  Executable definitions only.  (handle_function: Model/C02_scope.v; the container: Model/C02_container.v) *)
 From Coq Require Import List ZArith String Bool Arith.
-From Verif Require Import Lib.Sexp.
+From Verif Require Export Model.C02_kinds.
+From Verif Require Import Lib.Sexp Gen.C02_tables.
 Import ListNotations.
 Open Scope string_scope.
 Open Scope list_scope.
-
-Inductive kind := PO | PK | VP | KO | VK.
 
 (* annotation / default expressions are opaque atoms (their text is C03's business) *)
 Record arg := mkArg { aname : string; aann : option Z }.
@@ -18,9 +18,6 @@ Record arguments := mkArgs {
 
 Inductive dflt := DNone | DExpr (e : Z) | DStr (s : string).
 Record param := mkParam { pname : string; pann : option Z; pkind : kind; pdef : dflt }.
-
-Inductive result (A : Type) := Ok (a : A) | Err (e : string).
-Arguments Ok {A} a. Arguments Err {A} e.
 
 (* itertools.zip_longest(xs, ys, fillvalue=None) *)
 Fixpoint zip_longest {A B} (xs : list A) (ys : list B) : list (option A * option B) :=
@@ -49,13 +46,13 @@ Fixpoint positional_params (l : list (option (arg * kind) * option Z)) : result 
 
 (* for kwarg, default in ...: kwarg.arg on None raises AttributeError.
    An entry of kw_defaults that is None (no default) and a missing entry (fill value) look the same. *)
-Fixpoint kwonly_params (l : list (option arg * option (option Z))) : result (list param) :=
+Fixpoint kwonly_params (k : kind) (l : list (option arg * option (option Z))) : result (list param) :=
   match l with
   | [] => Ok []
   | (None, _) :: _ => Err "AttributeError"
   | (Some a, d) :: r =>
-      match kwonly_params r with
-      | Ok ps => Ok (mkParam (aname a) (aann a) KO (match d with Some (Some e) => DExpr e | _ => DNone end) :: ps)
+      match kwonly_params k r with
+      | Ok ps => Ok (mkParam (aname a) (aann a) k (match d with Some (Some e) => DExpr e | _ => DNone end) :: ps)
       | Err e => Err e
       end
   end.
@@ -63,16 +60,28 @@ Fixpoint kwonly_params (l : list (option arg * option (option Z))) : result (lis
 Definition opt_param (o : option arg) (k : kind) (d : string) : list param :=
   match o with Some a => [mkParam (aname a) (aann a) k (DStr d)] | None => [] end.
 
-Definition get_parameters (a : arguments) : result (list param) :=
-  let tagged := map (fun x => (x, PO)) (posonly a) ++ map (fun x => (x, PK)) (args a) in
-  match positional_params (griffe_align tagged (defaults a)) with
-  | Err e => Err e
-  | Ok pos =>
-    match kwonly_params (griffe_align (kwonly a) (kw_defaults a)) with
-    | Err e => Err e
-    | Ok kws => Ok (pos ++ opt_param (vararg a) VP "()" ++ kws ++ opt_param (kwarg a) VK "{}")
-    end
+(* one block of get_parameters; the alignment tuples are built eagerly, the unpacking errors surface in the loops *)
+Definition emit (a : arguments) (g : group) : result (list param) :=
+  match g with
+  | GPositional =>
+      positional_params (griffe_align (map (fun x => (x, posonly_kind)) (posonly a) ++ map (fun x => (x, args_kind)) (args a))
+                                      (defaults a))
+  | GVararg => Ok (opt_param (vararg a) vararg_kind vararg_default)
+  | GKwonly => kwonly_params kwonly_kind (griffe_align (kwonly a) (kw_defaults a))
+  | GKwarg => Ok (opt_param (kwarg a) kwarg_kind kwarg_default)
   end.
+
+(* the blocks append to `parameters` in statement order; the first raising block decides the exception *)
+Fixpoint emit_all (a : arguments) (gs : list group) : result (list param) :=
+  match gs with
+  | [] => Ok []
+  | g :: r => match emit a g with
+              | Err e => Err e
+              | Ok ps => match emit_all a r with Err e => Err e | Ok qs => Ok (ps ++ qs) end
+              end
+  end.
+
+Definition get_parameters (a : arguments) : result (list param) := emit_all a emission_order.
 
 (* ---- authority: how CPython reads the same ast.arguments (funcobject / inspect.signature):
    defaults belong to the LAST |defaults| parameters of posonlyargs ++ args; kw_defaults[i] belongs to kwonlyargs[i]. *)
@@ -96,70 +105,6 @@ Definition wf (a : arguments) : bool :=
   Nat.eqb (List.length (kw_defaults a)) (List.length (kwonly a)).
 
 Definition required (p : param) : bool := match pdef p with DNone => true | _ => false end.
-
-(* ---- handle_function bookkeeping in one scope (module or class body) ---- *)
-Inductive deco := DOverload | DProperty | DSetter (base : string) | DDeleter (base : string) | DOther.
-Record fdef := mkF { fid : Z; fname : string; fdecos : list deco }.
-
-Inductive member :=
-| MFunc (id : Z) (overloads : list Z)
-| MProp (id : Z) (setter deleter : option Z)
-| MOther (id : Z).                                   (* a pre-existing non-function member *)
-
-Record scope := mkScope { members : list (string * member); buffer : list (string * list Z) }.
-
-Fixpoint lookup {A} (n : string) (l : list (string * A)) : option A :=
-  match l with [] => None | (k, v) :: r => if String.eqb k n then Some v else lookup n r end.
-Fixpoint remove_key {A} (n : string) (l : list (string * A)) : list (string * A) :=
-  match l with [] => [] | (k, v) :: r => if String.eqb k n then remove_key n r else (k, v) :: remove_key n r end.
-(* dict assignment: keeps the position of an existing key, appends a new one *)
-Fixpoint assign {A} (n : string) (v : A) (l : list (string * A)) : list (string * A) :=
-  match l with
-  | [] => [(n, v)]
-  | (k, w) :: r => if String.eqb k n then (k, v) :: r else (k, w) :: assign n v r
-  end.
-
-Definition is_overload (d : deco) := match d with DOverload => true | _ => false end.
-Definition is_property (d : deco) := match d with DProperty => true | _ => false end.
-
-Definition member_is_property (s : scope) (n : string) : bool :=
-  match lookup n (members s) with Some (MProp _ _ _) => true | _ => false end.
-
-(* get_base_property: first decorator `<base>.setter|deleter` with base = this function's own name,
-   where the member currently bound to that name is a property.  true = setter. *)
-Fixpoint base_property (s : scope) (n : string) (ds : list deco) : option bool :=
-  match ds with
-  | [] => None
-  | DSetter b :: r => if String.eqb b n && member_is_property s n then Some true else base_property s n r
-  | DDeleter b :: r => if String.eqb b n && member_is_property s n then Some false else base_property s n r
-  | _ :: r => base_property s n r
-  end.
-
-Definition handle_function (s : scope) (f : fdef) : scope :=
-  if existsb is_property (fdecos f) then
-    mkScope (assign (fname f) (MProp (fid f) None None) (members s)) (buffer s)
-  else if existsb is_overload (fdecos f) then
-    let old := match lookup (fname f) (buffer s) with Some l => l | None => [] end in
-    mkScope (members s) (assign (fname f) (old ++ [fid f]) (buffer s))
-  else match base_property s (fname f) (fdecos f) with
-  | Some true =>
-      match lookup (fname f) (members s) with
-      | Some (MProp id _ d) => mkScope (assign (fname f) (MProp id (Some (fid f)) d) (members s)) (buffer s)
-      | _ => s
-      end
-  | Some false =>
-      match lookup (fname f) (members s) with
-      | Some (MProp id st _) => mkScope (assign (fname f) (MProp id st (Some (fid f))) (members s)) (buffer s)
-      | _ => s
-      end
-  | None =>
-      match lookup (fname f) (buffer s) with
-      | Some (x :: l) => mkScope (assign (fname f) (MFunc (fid f) (x :: l)) (members s)) (remove_key (fname f) (buffer s))
-      | _ => mkScope (assign (fname f) (MFunc (fid f) []) (members s)) (buffer s)
-      end
-  end.
-
-Definition visit_functions (fs : list fdef) (s : scope) : scope := fold_left handle_function fs s.
 
 (* ---- s-expression interface ---- *)
 Definition dec_arg (s : sexp) : option arg :=
@@ -187,38 +132,11 @@ Definition enc_param (p : param) : sexp :=
 Definition enc_result (r : result (list param)) : sexp :=
   match r with Ok ps => SList [SStr "ok"; SList (map enc_param ps)] | Err e => SList [SStr "err"; SStr e] end.
 
-Definition dec_deco (s : sexp) : option deco :=
-  match s with
-  | SList [SStr "overload"] => Some DOverload
-  | SList [SStr "property"] => Some DProperty
-  | SList [SStr "setter"; SStr b] => Some (DSetter b)
-  | SList [SStr "deleter"; SStr b] => Some (DDeleter b)
-  | SList [SStr "other"] => Some DOther
-  | _ => None
-  end.
-Definition dec_fdef (s : sexp) : option fdef :=
-  match s with
-  | SList [SInt i; SStr n; ds] => do ds' <- as_list_of dec_deco ds; Some (mkF i n ds')
-  | _ => None
-  end.
-Definition enc_member (nm : string * member) : sexp :=
-  match snd nm with
-  | MFunc id ov => SList [SStr (fst nm); SStr "function"; SInt id; SList (map SInt ov)]
-  | MProp id st dl => SList [SStr (fst nm); SStr "property"; SInt id; of_opt SInt st; of_opt SInt dl]
-  | MOther id => SList [SStr (fst nm); SStr "other"; SInt id]
-  end.
-Definition enc_scope (s : scope) : sexp :=
-  SList [SList (map enc_member (members s));
-         SList (map (fun kv => SList [SStr (fst kv); SList (map SInt (snd kv))]) (buffer s))].
-
-Definition run_C02 (s : sexp) : sexp :=
+Definition run_params (s : sexp) : sexp :=
   match s with
   | SList [SStr "params"; a] => match dec_arguments a with Some a' => enc_result (get_parameters a') | None => bad_input end
   | SList [SStr "spec"; a] => match dec_arguments a with
                               | Some a' => SList [SStr "ok"; SList (map enc_param (cpython_signature a')); of_bool (wf a')]
                               | None => bad_input end
-  | SList [SStr "fseq"; fs] => match as_list_of dec_fdef fs with
-                               | Some fs' => enc_scope (visit_functions fs' (mkScope [] []))
-                               | None => bad_input end
   | _ => bad_input
   end.
